@@ -62,7 +62,7 @@ func refCanonical(s []byte) []byte {
 	return s
 }
 
-var dstPrefixes = [][]byte{nil, {}, []byte("x"), []byte("PREFIX!")}
+var dstPrefixes = [][]byte{nil, {}, []byte("x"), []byte("PREFIX!"), {0}, {0, 1, 0, 0xff}, []byte("\x00\x00\x00\x00")}
 
 // withCap returns a copy of p with the given spare capacity.
 func withCap(p []byte, spare int) []byte {
@@ -276,6 +276,21 @@ func c12Random(c *Ctx) {
 				s = append(append([]byte{}, h...), refRevComp(h)...)
 			}
 			k.Input("seq", s)
+			// src and dst as neighbouring windows of one buffer
+			{
+				ar := newArena(r, s, []byte("dst-prefix"), randSeq(r, []byte(dna10), 5))
+				got := sequtil.ReverseComplement(ar.parts[1][:len(ar.parts[1]):len(ar.parts[1])], ar.parts[0])
+				if w := append([]byte("dst-prefix"), refRevComp(s)...); !bytes.Equal(got, w) {
+					k.Failf("revcomp", "ReverseComplement with src and dst carved from one buffer = %q, want %q", got, w)
+					return
+				}
+				for range sequtil.CanonicalSubsequences(ar.parts[0], 3) {
+				}
+				sequtil.ReverseComplement(nil, ar.parts[0])
+				if arenaFail(k, ar, "ReverseComplement/CanonicalSubsequences") {
+					return
+				}
+			}
 			// a result held across later calls must stay what it was
 			heldRC := sequtil.ReverseComplement(nil, s)
 			heldStr := sequtil.ReverseComplementString(string(s))
